@@ -95,7 +95,7 @@ package basestore
 //@   ghost W := b.emitters.evtWrite
 //@   ghost N0 := evCount(b.emitters.evtWrite)
 //@   ghost LH := dsKey("_localHeads")
-//@   assert @ before call b.emitters.evtWrite.Emit#1: @C16 @C05 @C01 synced(b) && dsHas(C)[LH] && len(headsDec(dsMap(C)[LH])) == 1 && hs(headsDec(dsMap(C)[LH])[0]) == hs(e) && ents(L)[e]
+//@   assert @ before call b.emitters.evtWrite.Emit#1: @C16 @C05 @C01 @C06 @C07 synced(b) && dsHas(C)[LH] && len(headsDec(dsMap(C)[LH])) == 1 && hs(headsDec(dsMap(C)[LH])[0]) == hs(e) && ents(L)[e]
 //@   ensures result1 == nil ==> result != nil && ref(result) != 0 && ents(L)[result] && !old(ents(L)[result]) && logLen(L) == old(logLen(L)) + 1
 //@   ensures result1 == nil ==> (forall x Iface :: old(ents(L)[x]) ==> ents(L)[x])
 //@   ensures @C05 result1 == nil ==> dsHas(C)[LH] && len(headsDec(dsMap(C)[LH])) == 1 && hs(headsDec(dsMap(C)[LH])[0]) == hs(result) && headsWF(dsMap(C)[LH])
@@ -237,7 +237,7 @@ package basestore
 //@   loop 3 invariant true
 //@   assume @ before call e.Clock.GetTime#1: e.Clock != nil
 //@   assume @ loop 3 body: h != nil
-//@   ensures @C01 @C13 result == nil ==> synced(b)
+//@   ensures @C01 @C13 @C08 result == nil ==> synced(b)
 //@   ensures @C08 @C13 forall x Iface :: old(ents(L)[x]) ==> ents(L)[x]
 //@   ensures @C19 statusMax(b.replicationStatus) >= old(statusMax(b.replicationStatus)) && statusProgress(b.replicationStatus) >= old(statusProgress(b.replicationStatus))
 //@   ensures @C19 result == nil ==> logLen(L) <= statusProgress(b.replicationStatus) && statusProgress(b.replicationStatus) <= statusMax(b.replicationStatus)
